@@ -5,12 +5,12 @@ sys.path.insert(0, os.path.dirname(os.path.dirname(os.path.abspath(__file__))))
 from crrlverif import totality, facts
 cfgs = sys.argv[1:] or facts.THOROUGH_CONFIGS
 facts.extract_many(cfgs)
-counts, by_config = totality.freeze_inventory(cfgs)
+counts, by_config, explicit = totality.freeze_inventory(cfgs)
 out = dict(_comment="R19b/R19e bulk inventory: per (generalised function path, obligation kind) the number of index / range / "
            "copy-length / division / callee-requirement obligations that no rule discharges on the reviewed tree. "
            "These sites are NOT individually proved safe (their safety is an arithmetic property of data or of lengths "
            "beyond the interval/guard rules); the check decides that no NEW undischarged obligation appears, e.g. "
            "because a length guard was removed or an index computation changed shape.",
-           configs=cfgs, counts=dict(sorted(counts.items())), by_config={c: dict(sorted(v.items())) for c, v in by_config.items()})
+           configs=cfgs, counts=dict(sorted(counts.items())), by_config={c: dict(sorted(v.items())) for c, v in by_config.items()}, explicit_counts=dict(sorted(explicit.items())))
 json.dump(out, open(os.path.join(os.path.dirname(os.path.dirname(os.path.abspath(__file__))), "tables", "site_inventory.json"), "w"), indent=0)
 print(len(counts), sum(counts.values()))
